@@ -559,7 +559,8 @@ def drillhole_program_strategy(max_adds=6):
                             "items": draw(interval_items(scale))})
             extra = draw(st.integers(0, 9))
             if extra == 0:
-                ops.append({"op": "reopen"})
+                # "blind": nothing is read from the re-opened hole before the next log is added
+                ops.append({"op": "reopen", "blind": draw(st.booleans())})
             elif extra == 1:
                 ops.append({"op": "query"})
             elif extra in (2, 3) and n + 1 < n_adds:
